@@ -22,10 +22,10 @@ for d in sorted(glob.glob(root+'/C*-*')):
         meta['example_signatures']={k:v for k,v in list(sigs.items())[:3]}
     json.dump(meta,open(d+'/meta.json','w'),indent=1)
     notes=open(d+'/notes.md').read() if os.path.exists(d+'/notes.md') else ''
-    rows.append((name,meta['property'],', '.join(meta['files_changed']),fired))
+    rows.append((name,meta['property'],', '.join(meta['files_changed']),fired,bool(meta.get('superseded'))))
 with open(root+'/MATRIX.md','w') as f:
     f.write("# Seeded changes x quick checks\n\nEach change compiles and passes the repository's 266 tests; its demonstration fails with it and passes without it (tools/seed_import.sh). `own` = the check of the property the change was written against.\n\n| change | files | own check fires | other checks that fire |\n|---|---|---|---|\n")
-    for name,prop,files,fired in rows:
-        own='yes' if prop in fired else ('NO' if (os.path.exists(os.path.join(root,'matrix-round1',name+'.txt')) or os.path.exists(os.path.join(root,'own',name+'.txt'))) else 'pending')
+    for name,prop,files,fired,sup in rows:
+        own='superseded by a later fix (meta.json)' if sup else 'yes' if prop in fired else ('NO' if (os.path.exists(os.path.join(root,'matrix-round1',name+'.txt')) or os.path.exists(os.path.join(root,'own',name+'.txt'))) else 'pending')
         f.write("| %s | %s | %s | %s |\n"%(name,files,own,' '.join(x for x in fired if x!=prop)))
-print("rows",len(rows),"own-missed",[r[0] for r in rows if r[1] not in r[3]])
+print("rows",len(rows),"own-missed",[r[0] for r in rows if r[1] not in r[3] and not r[4]])
